@@ -15,7 +15,8 @@ Verdict(e) ==
        LET x == W!ExpectReadFrom(e.script, e.fail_at) IN
        IF e.calls # x.calls THEN "readfrom-deliveries"
        ELSE IF e.err # x.err THEN "readfrom-result-" \o x.err \o "-expected-got-" \o e.err
-       ELSE IF e.n # x.n THEN "readfrom-count"
+       \* (a failing packet write that reports bytes together with its error: the count is not defined by the property)
+       ELSE IF e.n # x.n /\ ~(e.wfail_n > 0 /\ x.err = "writer") THEN "readfrom-count"
        ELSE ""
   ELSE "harness-unknown-op"
 Init == l = 1
